@@ -48,6 +48,9 @@ impl Rng
         (0..len).map(|_| (self.next_u64() & 0xff) as u8).collect()
     }
 
+    pub fn bytes_below(&mut self, max : usize) -> Vec<u8> { let n = self.below(max); self.bytes(n) }
+    pub fn bytes_range(&mut self, lo : usize, hi : usize) -> Vec<u8> { let n = self.range(lo, hi); self.bytes(n) }
+
     pub fn shuffle<T>(&mut self, items : &mut Vec<T>)
     {
         for i in (1..items.len()).rev()
